@@ -1561,3 +1561,78 @@ def replay(rep):  # noqa: F811
         print('replay: %s' % ('violation reproduced on the real code' if bad else 'not reproduced'))
         return 1 if bad else 0
     return _rp18(rep)
+
+
+# ---- precedence (C01/C11): unparenthesised forms against their fully parenthesised reading in the manual ----
+_PREC_PAIRS = [
+    ('A * B mod C', '(A * B) mod C'), ('A mod B * C', '(A mod B) * C'), ('A * B << C', '(A * B) << C'), ('A << B * C', '(A << B) * C'), ('A + B << C', 'A + (B << C)'),
+    ('A - B >> C', 'A - (B >> C)'), ('A / B / C', '(A / B) / C'), ('A / B * C', '(A / B) * C'), ('A * B / C', '(A * B) / C'), ('A - B - C', '(A - B) - C'), ('A - B + C', '(A - B) + C'),
+    ('A ^ B ^ 2', 'A ^ (B ^ 2)'), ('A | B C', '(A | B) C'), ('A | B ^ 2', 'A | (B ^ 2)'), ('- A ^ 2', '(- A) ^ 2'), ('A B ^ 2', 'A (B ^ 2)'), ('A / B C', 'A / (B C)'), ('A B / C D', '(A B) / (C D)'),
+    ('A + B * C', 'A + (B * C)'), ('A * B + C', '(A * B) + C'), ('A and B xor C', '(A and B) xor C'), ('A or B and C', '(A or B) and C'), ('A mod B mod C', '(A mod B) mod C'),
+    ('A xor B + C', '(A xor B) + C'), ('A + B mod C', 'A + (B mod C)'), ('A B mod C', '(A B) mod C'), ('A mod B C', 'A mod (B C)'), ('A * B C', 'A * (B C)'), ('A B * C', '(A B) * C'),
+    ('A % B', '(A %) B'), ('A ^ 2 %', 'A ^ (2 %)'), ('A / B | C', 'A / (B | C)'), ('A | B / C', '(A | B) / C'), ('2 ^ - A ^ 2', '2 ^ ((- A) ^ 2)'), ('sqrt A ^ 2', 'sqrt(A ^ 2)'), ('sqrt A B', '(sqrt(A)) B'),
+    ('A << B >> C', '(A << B) >> C'), ('A << B + C', '(A << B) + C'), ('A / B mod C', '(A / B) mod C'), ('A mod B / C', '(A mod B) / C'), ('A - B * C - D', '(A - (B * C)) - D'),
+]
+_PREC_VALUES = [{'A': '7', 'B': '3', 'C': '2', 'D': '5'}, {'A': '12', 'B': '5', 'C': '3', 'D': '2'}, {'A': '9', 'B': '4', 'C': '7', 'D': '11'}]
+
+
+def _precedence_witness():
+    if build_core() != 0:
+        return None
+    import re as _re3
+    lines = []
+    for a, b in _PREC_PAIRS:
+        for vals in _PREC_VALUES:
+            fa = _re3.sub(r'[ABCD]', lambda m: vals[m.group(0)], a)
+            fb = _re3.sub(r'[ABCD]', lambda m: vals[m.group(0)], b)
+            lines.append((a, b, fa, fb))
+    res = run_queries([x for t in lines for x in (t[2], t[3])])
+    for i, (a, b, fa, fb) in enumerate(lines):
+        ra, rb = res[2 * i], res[2 * i + 1]
+        ka = ra[2] if ra[2] is not None else ra[1].splitlines()[0][:60] if ra[1] else ''
+        kb = rb[2] if rb[2] is not None else rb[1].splitlines()[0][:60] if rb[1] else ''
+        if (ra[2] is None) != (rb[2] is None) or (ra[2] is not None and _norm_raw(ra[2]) != _norm_raw(rb[2])):
+            return {'replayer': 'precedence', 'input': {'query': fa, 'expected': 'the same value as `%s` (the manual reads `%s` as `%s`)' % (fb, a, b)}, 'output': ra[1],
+                    'why': '`%s` evaluates to %s but `%s` to %s' % (fa, ka, fb, kb), 'cmd': '%s %r %r' % (QUERY_BIN, fa, fb)}
+    return None
+
+
+_sf19 = search_family
+
+
+def search_family(fam, prop):  # noqa: F811
+    if fam == 'precedence':
+        return _precedence_witness()
+    return _sf19(fam, prop)
+
+
+_fw20 = find_witness
+
+
+def find_witness(o, rep):  # noqa: F811
+    slot = o.get('slot') or ''
+    if slot.startswith('parse_') or o.get('unit') == 'parser':
+        w = _precedence_witness()
+        if w:
+            return w
+    return _fw20(o, rep)
+
+
+_rp20 = replay
+
+
+def replay(rep):  # noqa: F811
+    w = rep.get('replay') or {}
+    if w.get('replayer') == 'precedence':
+        if build_core() != 0:
+            return 0
+        i = rep['input']
+        (ln, text, raw) = run_queries([i['query']])[0]
+        print('> ' + i['query'])
+        print(text)
+        print('expected: ' + i['expected'])
+        w2 = _precedence_witness()
+        bad = bool(w2 and w2['input']['query'] == i['query'])
+        print('replay: %s' % ('violation reproduced on the real code' if bad else 'not reproduced'))
+        return 1 if bad else 0
+    return _rp20(rep)
